@@ -112,6 +112,14 @@ def build_corpus(tier, rng):
                                                Variant("C", "unit", [], [DISABLED, ser("x"), ser("X"), det("never"), msg("never")])])))
     G.resolve_names(ID, [it for _, it in items])
     items = [(f_, i_) for f_, i_ in items if not getattr(i_, "_lost_variants", False)]     # (only when the generator probe is unavailable)
+    # non-ASCII identifiers without spellings of their own under every style: get_serializations returns the identifier in that style
+    from props import c01
+    for j, it_ in enumerate(c01.nonascii()):
+        for v in it_.variants:
+            if j % 2:
+                v.metas = list(v.metas) + [msg("m " + v.ident)]
+        items.append(("non-ascii-ident", it_))
+    G.resolve_names(ID, [it_ for _, it_ in items])
     for fam, it in items:
         k = c.add_def(it, family=fam, derives=["EnumMessage"])
         for j, (i, _, tag) in enumerate(T.RR.sample_values(it)):
